@@ -71,7 +71,8 @@ def length_scripts(group, outdir):
              "G_tcp_eph": {"a": {"path": "tcp", "kind": "normal", "ctl": "S1"}, "b": {"path": "tcp", "kind": "setaddr", "ctl": "S2"}}}[group]
     hdr = {"a": "Cfg", "T": 3, "fixed": False, "group": group, "calls": calls}
     bcast = calls["a"]["path"] == "bcast"
-    for i, n in enumerate(WRONG_LENGTHS):
+    lens = WRONG_LENGTHS + ([-32, -1, -63] if calls["a"]["path"] == "tcp" else [])    # tcp: the genuine reply split in two segments
+    for i, n in enumerate(lens):
         c = "a" if (i % 2 == 0 or calls["b"]["kind"] == "setaddr") else "b"
         plan = [["badlen", 0]] if calls["a"]["path"] == "tcp" else [["badlen", 0], ["valid", 1]]     # G_tcp_eph: MaxReplies = 1
         lines = [hdr, {"a": "Enter", "c": c, "t": 0}, {"a": "Send", "c": c, "t": 0, "plan": plan, "lens": [n]}]
@@ -79,7 +80,7 @@ def length_scripts(group, outdir):
             lines.append({"a": "Return", "c": c, "t": 1, "kind": "ok", "cls": "valid", "from": c, "rel": 1})
         else:
             lines.append({"a": "Return", "c": c, "t": 0, "kind": "fail", "cls": "badlen", "from": c, "rel": 0})
-        vflib.write_ndjson(os.path.join(outdir, "beh_%s_len%d.ndjson" % (group, n)), lines)
+        vflib.write_ndjson(os.path.join(outdir, "beh_%s_len%s.ndjson" % (group, str(n).replace("-", "split"))), lines)
 
 
 def rig(group, scripts_dir, layouts, parts, tick, race=False, out=None, seed=None, port_extra=0):
@@ -200,27 +201,44 @@ def run_groups(v, groups, n, tick=50, race=False, parts_fixed=6, classify=None, 
                 rejected.append((sid, s, consumed))
         if not rejected:
             continue
-        # re-run rule: the rejected scenarios (at most 10) are run again in isolation, 3 times, at 3x tick
+        # re-run rule: the rejected scenarios (at most 10) are run again in isolation at 3x tick (then 5x). Every
+        # scenario carries a timing self-check (how late a 1 ms sleeper woke up while it ran): an attempt whose own
+        # clockwork was disturbed by more than 15% of a tick proves nothing and does not count. A scenario is reported
+        # only if an UNDISTURBED attempt is rejected again.
         rejected = rejected[:10]
         again = {sid: 0 for sid, _, _ in rejected}
+        clean_ok = {sid: 0 for sid, _, _ in rejected}
         last = {}
+
         def attempt(k):
             one = vflib.sub("rerun-%s-%d" % (g, k))
             for sid, _, _ in rejected:
                 shutil.copy(os.path.join(sdir, sid + ".ndjson"), one)
             os.environ["VF_PROP"] = v.prop
-            t2, _, _, _ = rig(g, one, layouts, min(len(rejected), 4) if g in FIXED_GROUPS else 1, tick * 3, race=False, out=one,
-                              seed=vflib.seed() + k + 1, port_extra=50 + 40 * k)
+            t2, _, _, _ = rig(g, one, layouts, min(len(rejected), 4) if g in FIXED_GROUPS else 1, tick * (3 if k < 3 else 5), race=False, out=one,
+                              seed=vflib.seed() + k + 1, port_extra=50 + 20 * k)
             return t2
-        with ThreadPoolExecutor(max_workers=3) as ex:
-            traces = list(ex.map(attempt, range(3)))
-        for t2 in traces:
+
+        def judge(t2):
             _, re2 = validate(g, t2)
             for s2 in vflib.read_ndjson(t2):
                 c2, l2 = re2.get(s2["id"], (0, len(s2["ev"])))
+                disturbed = s2.get("jitter_us", 0) > 0.15 * s2.get("tick_us", 1 << 40)
                 if c2 < l2 or s2.get("hung"):
+                    if disturbed:
+                        log("re-run of %s disturbed (wake-ups up to %.1f ms late at a %d ms tick): does not count" % (s2["id"], s2.get("jitter_us", 0) / 1000.0, s2.get("tick_us", 0) // 1000))
+                        continue
                     again[s2["id"]] += 1
                     last[s2["id"]] = (s2, c2, t2)
+                elif not disturbed:
+                    clean_ok[s2["id"]] += 1
+        for k in range(3):
+            judge(attempt(k))
+        # scenarios without any undisturbed verdict yet: up to three more attempts at 5x tick, one at a time
+        for k in range(3, 6):
+            if all(again[sid] + clean_ok[sid] > 0 for sid, _, _ in rejected):
+                break
+            judge(attempt(k))
         for sid, s, consumed in rejected:
             if again[sid] == 0:
                 total["unreproduced"] += 1
